@@ -157,7 +157,7 @@ def run(ctx):
     res = vlib.Result()
     res.rule = RULE
     rng = ctx.rng
-    N = ctx.n(10, 120)
+    N = ctx.n(10, 500)
     FIXED = [[('csend', 40, 'mix'), ('idle', 1), ('ssend', 40, 'mix'), ('idle', 3)],
              [('ssend', 17, 'text'), ('csend', 17, 'bin'), ('deliver', 2), ('csend', 33, 'json'), ('idle', 3)]]
     for (ck, sk) in PAIRS:
@@ -202,10 +202,10 @@ def ties(ctx, res):
             res.mismatches.append(dict(suite='decode-limit', case=dict(packets=n), impl=repr(got)[:80], model=repr(want)[:80]))
         res.count(('limit', n), True, 'tie:decode-limit')
     # the client model (take_batch) against both clients
-    r2 = c08.run_suite(ctx, 'C10', (), 40, 300)
+    r2 = c08.run_suite(ctx, 'C10', (), 40, 1500)
     res.merge(r2)
     # the server model (drain) against both servers, with the bursts of 15..40 sends first
-    prof = dict(c03.PROFILE, quick=30, thorough=120)
+    prof = dict(c03.PROFILE, quick=30, thorough=400)
     r3 = hsuite.run(ctx, 'C10', [], prof, RULE)
     res.merge(r3)
     res.rule = RULE + '; plus the client-history and server-history correspondences (bursts of 15..40 sends) that tie Client.v / Server.v to the code, and the decode-limit boundary'
